@@ -1093,7 +1093,13 @@ class MultiTestResult(TestResult):
     def __init__(self, *results):
         # Setup _results first, as the base class __init__ assigns to failfast.
         self._results = list(map(ExtendedToOriginalDecorator, results))
-        super().__init__()
+        # The base class (re)assigns failfast in __init__ and startTestRun; that
+        # must not overwrite the failfast the wrapped results were given.
+        self._failfast_frozen = True
+        try:
+            super().__init__()
+        finally:
+            self._failfast_frozen = False
 
     def __repr__(self):
         return "<{} ({})>".format(
@@ -1109,6 +1115,8 @@ class MultiTestResult(TestResult):
         return getattr(self._results[0], "failfast", False)
 
     def _set_failfast(self, value):
+        if self._failfast_frozen:
+            return
         self._dispatch("__setattr__", "failfast", value)
 
     failfast = property(_get_failfast, _set_failfast)
@@ -1152,7 +1160,11 @@ class MultiTestResult(TestResult):
         return self._dispatch("addUnexpectedSuccess", test, details=details)
 
     def startTestRun(self):
-        super().startTestRun()
+        self._failfast_frozen = True
+        try:
+            super().startTestRun()
+        finally:
+            self._failfast_frozen = False
         return self._dispatch("startTestRun")
 
     def stopTestRun(self):
